@@ -263,6 +263,66 @@ void h_lower_bound_linear(void)
     return build
 
 
+# ---------------------------------------------------------------------------
+# NonuniformGrid<real_type>::find
+# ---------------------------------------------------------------------------
+NUGRID = "src/corecel/grid/NonuniformGrid.hh"
+NUG_RULES = [
+    Rule(r"using ItemIdT = ItemId<T>;", "", 1, note="type alias dropped"),
+    Rule(r"auto iter = celeritas::lower_bound\(\s*offset_\.begin\(\),\s*offset_\.end\(\),\s*value,\s*\[&v = storage_\]\(ItemIdT i, T value\) \{ return v\[i\] < value; \}\);",
+         "T const* iter = lower_bound_impl(g_a, g_a + g_n, value);", 1,
+         note="lower_bound over the ItemRange with comparator `storage[i] < value` -> lower_bound_impl over the grid's values (iterator = pointer to the value; celeritas::lower_bound forwards to lower_bound_impl)"),
+    Rule(r"offset_\.end\(\)", "(g_a + g_n)", "+", note="ItemRange end -> pointer past the grid's values"),
+    Rule(r"offset_\.begin\(\)", "g_a", "+", note="ItemRange begin -> pointer to the grid's first value"),
+    Rule(r"storage_\[\*iter\]", "(*iter)", 1, note="Collection[ItemId] -> the value the iterator designates"),
+    Rule(r"this->front\(\)", "g_a[0]", 1, note="front(): storage_[*offset_.begin()]"),
+    Rule(r"this->back\(\)", "g_a[g_n - 1]", 1, note="back(): storage_[*(offset_.end() - 1)]"),
+    Rule(r"return iter - g_a;", "return (size_type)(iter - g_a);", 1, note="iterator difference -> index"),
+]
+
+
+def build_nug_find(ctx):
+    pc = ctx.func(NUGRID, r"CELER_FUNCTION size_type NonuniformGrid<T>::find\(value_type value\) const", NUG_RULES, name="NonuniformGrid<T>::find")
+    return (HDR + """#include <stddef.h>
+#include <stdlib.h>
+typedef double T; typedef T value_type;
+size_t g_n; T const* g_a;   /* the grid: storage_[offset_[0 .. n)) */
+size_t g_r;                 /* ghost: index lower_bound returned */
+#define NOTNAN(x) (!__CPROVER_isnand(x))
+size_t nondet_size_t(void);
+/* detail::lower_bound_impl: contract enforced in c18_lower_bound_d (any length).  Encoded as: assert the precondition, return a result constrained by
+ * that contract's two postconditions at witnesses r-1 and r -- plus the INSTANCE at (r, r+1) of this function's own quantified precondition
+ * "the grid is strictly increasing and NaN-free" (CBMC has no reliable quantifiers; the instance is what the proof below uses). */
+static T const* lower_bound_impl(T const* first, T const* last, T value_)
+{
+    __CPROVER_assert(first == g_a && last == g_a + g_n && NOTNAN(value_), "lower_bound_impl.precondition: whole grid, NaN-free value");
+    size_t r = nondet_size_t();
+    __CPROVER_assume(r <= g_n);
+    __CPROVER_assume(r > 0 ? g_a[r - 1] < value_ : 1);
+    __CPROVER_assume(r < g_n ? (NOTNAN(g_a[r]) && !(g_a[r] < value_)) : 1);
+    __CPROVER_assume(r + 1 < g_n ? g_a[r] < g_a[r + 1] : 1);
+    g_r = r;
+    return g_a + r;
+}
+size_type NUG_find(T value)
+__CPROVER_requires(g_n >= 2 && g_n <= 1000000 && __CPROVER_r_ok(g_a, g_n * sizeof(T)) && NOTNAN(value))
+__CPROVER_requires(value >= g_a[0] && value < g_a[g_n - 1])   /* own CELER_EXPECT */
+__CPROVER_assigns(g_r)
+/* the bin containing the value: grid[i] <= value < grid[i+1], with i+1 a valid index */
+__CPROVER_ensures(__CPROVER_return_value < g_n - 1)
+__CPROVER_ensures(__CPROVER_return_value < g_n - 1 ? (g_a[__CPROVER_return_value] <= value && value < g_a[__CPROVER_return_value + 1]) : 1)
+{""" + pc.body + """}
+void h_nug_find(void)
+{
+    T v; size_t n; __CPROVER_assume(n >= 2 && n <= 1000000);
+    T* a = malloc(n * sizeof(T)); __CPROVER_assume(a != 0);
+    g_a = a; g_n = n;
+    NUG_find(v);
+    VERIF_CANARY();
+}
+""")
+
+
 UNITS = [
     Unit("c18_from_bounds", build_from_bounds, "h_from_bounds", enforce="UGD_from_bounds", timeout=300, backend="cvc5",
          assumptions=["from_bounds: spacing (back-front)/(size-1) does not underflow to zero (stated precondition)"],
@@ -524,4 +584,8 @@ UNITS += [
     Unit("c18_int_helpers", build_int_helpers, "h_int_helpers", timeout=600, backend="cvc5",
          must_have=[r"ceil_div.u32", r"ceil_div.u64", r"half_positive", r"signum"], checks=["--bounds-check", "--div-by-zero-check"],
          replay=REPLAY_ALGO, note="ceil_div (32/64-bit, all operands), clamp_to_nonneg, negate, signum, half_positive against exact references (loop-free, complete)"),
+    Unit("c18_nonuniform_find", build_nug_find, "h_nug_find", enforce="NUG_find", timeout=300, backend=["sat", "cvc5", "z3"],
+         must_have=[r"NUG_find.postcondition", r"celer_expect", r"celer_assert", r"lower_bound_impl.precondition"], checks=["--bounds-check", "--pointer-check"],
+         assumptions=["lower_bound_impl by its c18_lower_bound_d contract (two witness instances)", "grid strictly increasing and NaN-free (precondition, used at one instance)"],
+         note="NonuniformGrid<double>::find: for any grid length and any in-range value returns i with grid[i] <= value < grid[i+1] and i+1 < size; its own asserts and the decrement are safe"),
 ]
